@@ -468,6 +468,15 @@ func c16PQ(c *fw.Case) {
 	if blocky {
 		c.Obs("pq_cases_with_inputs_made_of_long_runs", 1)
 	}
+	// one case in six: exactly three inputs — one holds a long run of the smallest keys and then runs dry while the
+	// other two (in either order) interleave above it
+	threeWay := !blocky && c.R.Intn(5) == 0 && len(universe) >= 16
+	if threeWay {
+		k = 3
+		c.Obs("pq_three_way_cases_with_a_leading_run", 1)
+	}
+	runLen := 7 + c.R.Intn(6)
+	slotOfRun := c.R.Intn(3)
 	var iters []pq.IteratorWithContext[[]byte, int, int]
 	var inputs [][]c16Elem
 	id := 0
@@ -492,6 +501,21 @@ func c16PQ(c *fw.Case) {
 					pos++
 				}
 				pos += c.R.Intn(3 * (k + 1))
+			}
+			n = len(idxs)
+		}
+		if threeWay {
+			idxs = idxs[:0]
+			if i == slotOfRun {
+				for pos := 0; pos < runLen && pos < len(universe); pos++ {
+					idxs = append(idxs, pos)
+				}
+			} else {
+				for pos := runLen; pos < len(universe); pos++ {
+					if (pos+i)%2 == 0 || c.R.Intn(4) == 0 {
+						idxs = append(idxs, pos)
+					}
+				}
 			}
 			n = len(idxs)
 		}
